@@ -663,6 +663,8 @@ def issubclass_(I, k, sup):
 
 
 def call_kind(I, f, args, kwargs):
+    if kwargs and not (isinstance(f, VKind) and I.concrete_kind(f) == 'dict'):
+        raise Unsupported(f'keyword argument(s) {sorted(kwargs)} to a builtin type')
     """Builtin type called as a constructor / converter."""
     ck = I.concrete_kind(f)
     if ck is None:
@@ -780,10 +782,16 @@ def construct(I, cls, args, kwargs):
     raise Unsupported(f'construction of {c.__name__}')
 
 
+KW_AWARE = {'zip', 'symmethod', 'hash', 'sorted', 'reader', 'print', 'min', 'max', 'sum', 'getattr'}
+
+
 def call_builtin(I, f, args, kwargs):
     name = f.name
     h = BUILTINS.get(name)
     if h is not None:
+        if kwargs and name not in KW_AWARE:
+            # never silently ignore an argument: that would turn an unmodelled call into a wrong one
+            raise Unsupported(f'keyword argument(s) {sorted(kwargs)} to builtin {name}')
         return h(I, f, args, kwargs)
     if name.startswith('method:'):
         return call_method(I, f.self_, name[7:], args, kwargs)
@@ -807,6 +815,9 @@ def call_builtin(I, f, args, kwargs):
 
 
 def call_method(I, obj, m, args, kwargs):
+    if kwargs and isinstance(obj, (VList, VTuple, VSet, VDict, VStr, VSeq)):
+        # keyword arguments of container / string methods are not modelled: never ignore them
+        raise Unsupported(f'keyword argument(s) {sorted(kwargs)} to method {m}')
     if isinstance(obj, VList):
         if m == 'append':
             obj.items.append(args[0])
@@ -1000,6 +1011,19 @@ def _unsup(msg):
 
 def b_reduction(name):
     def h(I, f, args, kw):
+        if set(kw) - ({'default'} if name in ('min', 'max') else set()):
+            raise Unsupported(f'keyword argument(s) {sorted(kw)} to {name}')
+        if name == 'sum' and len(args) == 2:
+            if concrete_int(args[1]) != 0:
+                raise Unsupported('sum with a start value')
+            args = args[:1]
+        if 'default' in kw:
+            if len(args) != 1:
+                raise Unsupported(f'{name} with default= and several arguments')
+            vs0 = as_vseq(I, to_seq(I, args[0]))
+            if I.ex.choose(vs0.length == 0):
+                return kw['default']
+            return reduction(I, name, to_seq(I, args[0]))
         s = to_seq(I, args[0]) if len(args) == 1 else VTuple(args)
         if isinstance(s, (VTuple, VList)) and all(isinstance(x, VInt) for x in s.items) and s.items:
             if name == 'sum':
